@@ -153,6 +153,17 @@ def tm_rows():
                 add('copy', mode, known, {a: 'x'}, [], expect='rejected')
     for a in TM.ALLOWED_DELETE_ARGS:
         add('delete', 'single', True, {a: VALUES[a]}, ['DeleteObject'])
+    # the same routing with debug logging switched on (code that runs only
+    # when a log level is enabled must not touch the arguments)
+    for mode in ('single', 'multipart'):
+        for method, ops, args in (
+                ('upload', up_ops[mode], ['SSECustomerKey', 'Metadata', 'ACL']),
+                ('download', ['GetObject'], ['SSECustomerKey', 'VersionId']),
+                ('copy', cp_ops[mode], ['SSECustomerKey', 'CopySourceSSECustomerKey', 'Tagging'])):
+            for a in args:
+                rows.append(dict(fe='tm', method=method, mode=mode, known=True,
+                                 given={a: VALUES[a]}, ops=ops, expect='ok',
+                                 defaults=False, debug_log=True))
     for a in NOT_ALLOWED + ['ACL']:
         add('delete', 'single', True, {a: 'x'}, [], expect='rejected')
     return rows
@@ -181,7 +192,19 @@ def run_tm_row(row):
         sc['cfg'] = {'S': 1}
         sc['user'] = {'sequential': True}
         xkey = 'k1'
-    res = runner.run_scenario(sc, coop.FifoChooser())
+    import logging
+    lg = logging.getLogger('s3transfer')
+    old_level = lg.level
+    nh = logging.NullHandler()
+    if row.get('debug_log'):
+        lg.addHandler(nh)
+        lg.setLevel(logging.DEBUG)
+    try:
+        res = runner.run_scenario(sc, coop.FifoChooser())
+    finally:
+        if row.get('debug_log'):
+            lg.setLevel(old_level)
+            lg.removeHandler(nh)
     calls = []
     rejected = False
     for e in res['events']:
@@ -244,7 +267,7 @@ def run(tier, seed):
         out.append(rec)
         row['_obs'] = r
         ck.distinct([row['fe'], row['method'], row['mode'], row['known'],
-                     sorted(row['given']), row['defaults']])
+                     sorted(row['given']), row['defaults'], bool(row.get('debug_log'))])
     ck.sample({'kind': 'routing rows', 'rows': out[:2]})
     d = tempfile.mkdtemp(prefix='verif-c15-')
     try:
